@@ -34,6 +34,10 @@ CORPUS = [
               "    fn dim(self: $Device, percent: int) -> bool { true }\n    fn set_temp(self: $Device, celsius: float) { }\n}\nfn main() { }\n"}, "A13"),
     ({"main": "fn main() { let x = 1; let r = match x { 1 => 10, _ => match x { 2 => 20, _ => match x { 3 => 30, _ => zz } } }; println(r); }"}, "A14"),
     ({"main": "fn main() { let u1 = 1; let u2 = 2; let u3 = 3; let u4 = 4; let u5 = 5; let u6 = 6; }\nfn q1() { }\nfn q2() { }\nfn q3() { }"}, "warnings"),
+    # unused names next to intentionally unused (`_`-prefixed) ones in the same scope: parameters + body, loop body, block, globals
+    ({"main": "let _reserved = 1;\nlet spare_global = 2;\nfn compute(_scale: int, offset: int, n: int) -> int { let _scratch = 1; let leftover = 2; let _tmp = 3; let extra = 4; n }\n"
+              "fn main() { println(compute(1, 2, 3)); for _round in 0..2 { let idle = 1; let _quiet = 2; let lazy = 3; } { let _u = 0; let unused_a = 4; let unused_b = 5; } }",
+      "lib": "let _hidden = 1;\nlet forgotten = 2;\npub fn noop(_a: int, b: int) { let _c = 1; let d = 2; }\nfn main() { }"}, "unused-next-to-underscore"),
 ] + [({"main": src}, "match-overlap") for src in families.overlapping_match()] + [
     # a global range iterated in several functions and twice in a row (iteration state must not live in the shared value)
     ({"main": "let R = 0..4;\nfn a() -> int { let s = 0; for i in R { s += i; if i == 1 { break; } } s }\nfn b() -> int { let s = 0; for i in R { s += i; } s }\n"
